@@ -53,6 +53,8 @@ Cards(k) ==
     [] k = "gq" -> { Card(k, <<a, b, c, dd, e, 0, g, 0, j, kk>>, 1)
                      : a \in {1, 2}, b \in {-1, 0, 1}, c \in {0, 1}, dd \in {0, 1}, e \in {0, -1},
                        g \in {0, 2}, j \in {-1, 0}, kk \in {-4, -1, 3} }
+                   \cup { Card(k, <<1, b, c, 1, e, 2, 0, 1, j, kk>>, 1)      \* all of xy, yz, zx and x, y, z present
+                          : b \in {-1, 1}, c \in {0, 1}, e \in {0, -1}, j \in {-1, 0}, kk \in {-4, 3} }
     [] k \in {"tx","ty","tz"} -> { Card(k, <<x, y, 0, a, b, c>>, 1)
                                    : x \in C0, y \in {0, -1}, a \in {3, 4}, b \in {1, 2}, c \in {1, 2} }
     [] k \in {"x","y","z"} ->
